@@ -7,8 +7,10 @@ package props
 // verifdump snapshot of the collections.
 
 import (
+	"bytes"
 	"encoding/json"
 	"fmt"
+	"io"
 	"regexp"
 	"runtime/debug"
 	"sort"
@@ -42,8 +44,23 @@ func c03Config(s c03Settings, proc string) string {
 	if s.ArgLimit > 0 {
 		fmt.Fprintf(&sb, "SecArgumentsLimit %d\n", s.ArgLimit)
 	}
-	if s.BodyLimit > 0 {
+	if s.BodyLimit > 0 && s.LimitBy != "ctl" {
 		fmt.Fprintf(&sb, "SecRequestBodyLimit %d\nSecRequestBodyLimitAction %s\n", s.BodyLimit, s.LimitAction)
+	}
+	if s.BodyLimit > 0 && s.LimitBy == "ctl" {
+		fmt.Fprintf(&sb, "SecRequestBodyLimitAction %s\nSecAction \"id:2,phase:1,pass,nolog,ctl:requestBodyLimit=%d\"\n", s.LimitAction, s.BodyLimit)
+	}
+	if s.JSONDepth > 0 {
+		fmt.Fprintf(&sb, "SecRequestBodyJsonDepthLimit %d\n", s.JSONDepth)
+	}
+	if s.NoFilesLimit > 0 {
+		fmt.Fprintf(&sb, "SecRequestBodyNoFilesLimit %d\n", s.NoFilesLimit)
+	}
+	if s.UploadFiles > 0 {
+		fmt.Fprintf(&sb, "SecUploadFileLimit %d\n", s.UploadFiles)
+	}
+	if s.InMemoryLimit > 0 {
+		fmt.Fprintf(&sb, "SecRequestBodyInMemoryLimit %d\n", s.InMemoryLimit)
 	}
 	switch s.ProcBy {
 	case "ctl":
@@ -395,6 +412,7 @@ type c03Obs struct {
 	Status      int                 `json:"status,omitempty"`
 	Panic       *fw.PanicInfo       `json:"panic,omitempty"`
 	ErrVars     map[string]string   `json:"error_vars,omitempty"`
+	FeedErr     string              `json:"feed_error,omitempty"` // error returned by WriteRequestBody / ReadRequestBodyFrom
 }
 
 var (
@@ -439,8 +457,30 @@ func c03Exec(waf coraza.WAF, c *c03Case) *c03Obs {
 			o.Interrupted, o.Status = true, it.Status
 		}
 		if c.HasBody && !o.Interrupted {
-			if it, _, _ := tx.WriteRequestBody([]byte(c.Body)); it != nil {
-				o.Interrupted, o.Status = true, it.Status
+			body, from := []byte(c.Body), 0
+			for _, end := range append(append([]int{}, c.Chunks...), len(body)) {
+				if end <= from || end > len(body) {
+					continue
+				}
+				piece := body[from:end]
+				from = end
+				var it *types.Interruption
+				var err error
+				switch c.Feed {
+				case "readfrom-lenger":
+					it, _, err = tx.ReadRequestBodyFrom(bytes.NewReader(piece))
+				case "readfrom-stream":
+					it, _, err = tx.ReadRequestBodyFrom(struct{ io.Reader }{bytes.NewReader(piece)})
+				default:
+					it, _, err = tx.WriteRequestBody(piece)
+				}
+				if err != nil {
+					o.FeedErr = err.Error()
+				}
+				if it != nil {
+					o.Interrupted, o.Status = true, it.Status
+					break
+				}
 			}
 		}
 		if it, _ := tx.ProcessRequestBody(); it != nil {
@@ -732,8 +772,8 @@ func c03Compare(c *c03Case, o *c03Obs) (diffs []c03Diff, notes []string) {
 	default:
 		mal := strings.HasPrefix(c.Pop, "malformed:")
 		carrier := c.Carrier
-		if mal {
-			carrier = c.Pop
+		if mal || strings.HasPrefix(c.Pop, "bound:") {
+			carrier = c.Pop // bound:<knob>:<VAR>:missing = an item beyond (or next to) a bound is not represented and no error variable says so
 		}
 		okBody := true
 		set := func(v string, exp, got, tolerated []sl.KV) {
@@ -818,6 +858,18 @@ func c03Judge(w *fw.W, c *c03Case) {
 	for v := range o.ErrVars {
 		w.Count("error_var:"+v, 1)
 	}
+	if c.Bound != nil {
+		b := c.Bound
+		w.Count("bound_cases", 1)
+		w.Cover("bound_cells", strings.Join([]string{b.Knob, b.Rel, b.Pos, b.Follow, b.Kinds, "level" + strconv.Itoa(b.Level), c.Carrier, c.Feed, c.Settings.LimitAction, c.Settings.LimitBy}, "|"))
+		w.Count(c.Pop+":pos:"+b.Pos, 1)
+		if b.Follow != "" {
+			w.Count(c.Pop+":follow:"+b.Follow, 1)
+		}
+		if o.Interrupted {
+			w.Count(c.Pop+":"+b.Rel+":interrupted", 1)
+		}
+	}
 	if o.Interrupted {
 		w.Count("interrupted", 1)
 		w.Count("interrupted:status:"+strconv.Itoa(o.Status), 1)
@@ -829,6 +881,13 @@ func c03Judge(w *fw.W, c *c03Case) {
 	diffs, notes := c03Compare(c, o)
 	for _, n := range notes {
 		w.Count(n, 1)
+		if c.Bound != nil && (n == "body_error_reported" || strings.HasPrefix(n, "judged:"+c.Carrier)) {
+			// what became of the probe: reported (an error variable is set) or judged (no error variable: every item was owed)
+			w.Count(c.Pop+":"+c.Bound.Rel+":"+strings.SplitN(n, ":", 2)[0], 1)
+			if c.Bound.Knob == "json-depth" && c.Settings.JSONDepth == 0 {
+				w.Count(c.Pop+"-default:"+c.Bound.Rel+":"+strings.SplitN(n, ":", 2)[0], 1)
+			}
+		}
 	}
 	nItems := len(c.Query) + len(c.Headers) + len(c.Cookies) + len(c.ExpPost) + len(c.ExpFiles) + len(c.ExpText) + len(c.ExpAttr)
 	w.Count("items_encoded", nItems)
@@ -907,22 +966,58 @@ func c03Witnesses() []*c03Case {
 		c.Combined = []string{"12", "13"}
 		out = append(out, c)
 	}
+	// a subtree beyond SecRequestBodyJsonDepthLimit followed by well-formed containers: the values
+	// below the bound are not in ARGS_POST, so REQBODY_ERROR has to say so wherever the subtree stands
+	for _, b := range []struct {
+		limit, depth int
+		pos, follow  string
+		body         string
+		kvs          []string
+		lengths      []string // array-length entries (tolerated extras)
+	}{
+		{3, 4, "first", "obj", `{"a":{"b":{"c":{"d":"attack"}}},"z":{"k":"v"}}`, []string{"json.a.b.c.d", "attack", "json.z.k", "v"}, nil},
+		{3, 4, "first", "arr", `{"a":{"b":{"c":{"d":"attack"}}},"z":["v"]}`, []string{"json.a.b.c.d", "attack", "json.z.0", "v"}, []string{"json.z", "1"}},
+		{3, 4, "first", "arr", `[[[["attack"]]],[1]]`, []string{"json.0.0.0.0", "attack", "json.1.0", "1"}, []string{"json", "2", "json.0", "1", "json.0.0", "1", "json.0.0.0", "1", "json.1", "1"}},
+		{3, 4, "first", "empty", `{"a":{"b":{"c":{"d":"attack"}}},"z":{}}`, []string{"json.a.b.c.d", "attack"}, nil},
+		{2, 3, "middle", "obj", `{"p":"1","w":{"a":{"b":"attack"},"y":{"k":"v"}},"q":"2"}`, []string{"json.p", "1", "json.w.a.b", "attack", "json.w.y.k", "v", "json.q", "2"}, nil},
+		{3, 4, "last", "none", `{"z":{"k":"v"},"a":{"b":{"c":{"d":"attack"}}}}`, []string{"json.a.b.c.d", "attack", "json.z.k", "v"}, nil},
+		{4, 4, "first", "obj", `{"a":{"b":{"c":{"d":"fine"}}},"z":{"k":"v"}}`, []string{"json.a.b.c.d", "fine", "json.z.k", "v"}, nil},
+	} {
+		c = base("json", "JSON", "ctl", "application/json", b.body)
+		c.Pop, c.ExpPost = "bound:json-depth", exp(b.kvs...)
+		c.PostExtra = c03KVs(exp(b.lengths...), 0)
+		rel := map[int]string{-1: "below", 0: "at", 1: "above1"}[b.depth-b.limit]
+		c.Settings.JSONDepth = b.limit
+		c.Bound = &c03Bound{Knob: "json-depth", Rel: rel, Pos: b.pos, Follow: b.follow, Kinds: "witness", Limit: b.limit, Size: b.depth}
+		c.Config = c03Config(c.Settings, "JSON")
+		out = append(out, c)
+	}
 	return out
 }
 
 func init() {
 	fw.Register(&fw.Prop{
 		ID: "C03", Level: "exploration",
-		Rule: "each case is one transaction: a generated URI (1-3 path segments, 0-12 query pairs), 0-5 headers, 0-2 Cookie headers and one body carrier (none, urlencoded, multipart with 0-3 files, JSON, XML, raw), all rendered by the harness's own encoders from lists of (name, value) byte strings (small name pool with repeats and case variants, empty names/values, reserved characters, NUL, CR/LF, invalid UTF-8, percent-/entity-/backslash-escape look-alikes), under varied SecRequestBodyAccess, processor selection (content type, content type with parameters, ctl, the recommended Content-Type rules), SecArgumentsLimit and SecRequestBodyLimit relations; 10% of JSON/XML/multipart bodies are malformed. Observed through one SecRule <VAR> \"@unconditionalMatch\" per variable and a verifdump snapshot. A case is non-trivial when at least one encoded item was read back through a rule and every judged variable equalled the encoded list; distinct by hash of (URI, headers, body, configuration).",
+		Rule: "each case is one transaction: a generated URI (1-3 path segments, 0-12 query pairs), 0-5 headers, 0-2 Cookie headers and one body carrier (none, urlencoded, multipart with 0-3 files, JSON, XML, raw), all rendered by the harness's own encoders from lists of (name, value) byte strings (small name pool with repeats and case variants, empty names/values, reserved characters, NUL, CR/LF, invalid UTF-8, percent-/entity-/backslash-escape look-alikes), under varied SecRequestBodyAccess, processor selection (content type, content type with parameters, ctl, the recommended Content-Type rules), SecArgumentsLimit and SecRequestBodyLimit relations; 10% of JSON/XML/multipart bodies are malformed. Observed through one SecRule <VAR> \"@unconditionalMatch\" per variable and a verifdump snapshot. A second, fixed list of cases per batch (the bound:<knob> populations, c03_bounds.go) probes every knob that bounds what the request-body path accepts - SecRequestBodyJsonDepthLimit (7 values and the default 1024), SecRequestBodyLimit and ctl:requestBodyLimit with both limit actions, SecArgumentsLimit against body arguments, SecRequestBodyNoFilesLimit, SecUploadFileLimit, SecRequestBodyInMemoryLimit, mime/multipart's 10000 header lines per part, and XML nesting (unbounded) - below, exactly at, one above and far above the bound, with the exceeding element at every position (only/first/middle/last member, under 0-2 wrapper containers; limit inside / at the end of the first, a middle, the last item; heavy part first/middle/last), followed by siblings of every kind (scalar, object, array, empty container, mixed), nests of objects, arrays and both, the body handed over in one piece or in pieces split at/before/after the limit through WriteRequestBody or ReadRequestBodyFrom (with and without Len()); the factor combinations are enumerated (a mixed-radix walk, disjoint slices per batch), the PRNG fills in names, values and white space; the same oracle applies: an item that is not represented in the collections must be excused by an error variable or an interruption. A case is non-trivial when at least one encoded item was read back through a rule and every judged variable equalled the encoded list; distinct by hash of (URI, headers, body, configuration).",
 		Assumptions: []string{
 			"decoding rules are those of DESIGN.md Appendix A; constructs with two defensible readings are not generated (';' as separator, names without '=', empty header/cookie names, CR/LF/NUL in header and cookie values, control characters in multipart parameter names, invalid UTF-8 in JSON, XML values with surrounding white space or illegal characters, '/' or '\\' inside a path segment, trailing slash)",
 			"REQUEST_URI, REQUEST_FILENAME and REQUEST_BASENAME are accepted in raw, once-decoded or re-escaped form; anything else (decoded twice, truncated) is a violation",
 			"a set error variable (REQBODY_ERROR, REQBODY_PROCESSOR_ERROR, URLENCODED_ERROR, MULTIPART_STRICT_ERROR, INBOUND_DATA_ERROR) or an interruption excuses missing data but a body is then not judged at all; required counters make sure every carrier was judged without error flags",
 			"JSON array-length entries (json.<path> = n) are tolerated extras; FILES_COMBINED_SIZE may or may not include field sizes; FILES, FILES_NAMES and FILES_SIZES are compared by value only",
 			"JSON objects with duplicate keys or keys colliding after flattening are a separate labelled population (known findings json:duplicate-key-silently-merged, json:dot-collision-silently-merged)",
-			"for truncated bodies only items completely contained in the prefix are owed"},
+			"for truncated bodies only items completely contained in the prefix are owed",
+			"bound populations: the relation labels (below/at/above1/far) compare the measured quantity (nesting depth counting the root container, body bytes, distinct body argument names, non-file bytes, files, header lines) with the configured value; they only name counters - the oracle never assumes where exactly a bound lies, only that what is not represented is announced. An error variable on an input within the bound is not a violation of this property",
+			"SecRequestBodyNoFilesLimit and SecUploadFileLimit are parsed but not enforced and SecArgumentsLimit is not applied to body arguments (nothing is dropped, so nothing has to be announced); they stay in the population so that an enforcement added later is judged"},
 		Required: []string{"judged:query", "judged:headers", "judged:cookies", "judged:urlencoded", "judged:multipart", "judged:json", "judged:xml", "judged:raw",
-			"double_encoding_items", "malformed_cases", "body_error_reported", "limit:arguments:below", "limit:body:below"},
+			"double_encoding_items", "malformed_cases", "body_error_reported", "limit:arguments:below", "limit:body:below",
+			// bound populations: within the bound everything was judged without an error flag, beyond it the flag was seen
+			"bound:json-depth:below:judged", "bound:json-depth:at:judged", "bound:json-depth:above1:body_error_reported", "bound:json-depth:far:body_error_reported",
+			"bound:json-depth-default:at:judged", "bound:json-depth-default:above1:body_error_reported",
+			"bound:json-depth:pos:first", "bound:json-depth:pos:middle", "bound:json-depth:pos:last", "bound:json-depth:pos:only",
+			"bound:json-depth:follow:scalar", "bound:json-depth:follow:obj", "bound:json-depth:follow:arr", "bound:json-depth:follow:empty", "bound:json-depth:follow:mixed",
+			"bound:body-limit:below:judged", "bound:body-limit:above1:body_error_reported", "bound:body-limit:far:body_error_reported", "bound:body-limit:far:interrupted",
+			"bound:arguments-limit-body:below:judged", "bound:nofiles-limit:below:judged", "bound:upload-file-limit:below:judged", "bound:in-memory-limit:far:judged",
+			"bound:multipart-part-headers:at:judged", "bound:multipart-part-headers:above1:body_error_reported", "bound:xml-depth:unbounded:judged"},
 		Plan: func(tier fw.Tier, seed int64) []fw.Batch {
 			n := 16
 			if tier == fw.Thorough {
@@ -955,6 +1050,10 @@ func init() {
 					w.Count("ambiguous_skipped", 1)
 					continue
 				}
+				c03Judge(w, c)
+			}
+			// the bound populations (c03_bounds.go), after the random cases so that those are what they were
+			for _, c := range c03BoundCases(g, b.Index, w.Tier == fw.Thorough) {
 				c03Judge(w, c)
 			}
 			for k, v := range g.avoided {
